@@ -359,6 +359,9 @@ fn build_mc(udir: &Path, tier: Tier, sc: &uni::Scratch) -> Uni {
 	let t9 = cb_spend(&kc, 7, REWARD, &[(109, REWARD - 1000)], 9);
 	let t10 = cb_spend(&kc, 3, REWARD, &[(110, REWARD - 1000)], 10);
 	let t11 = cb_spend(&kc, 4, REWARD, &[(111, REWARD - 700)], 11);
+	// an aggregate whose total fee is fine although one member (T6) pays too little: once the
+	// overpaying member T2 is pooled, what remains to be admitted is T6 alone
+	let t12 = transaction::aggregate(&[t2.clone(), t6.clone()]).expect("aggregate T2 T6");
 	for (n, t, k) in [
 		("T1", &t1, Kind::Plain),
 		("T2", &t2, Kind::Plain),
@@ -371,6 +374,7 @@ fn build_mc(udir: &Path, tier: Tier, sc: &uni::Scratch) -> Uni {
 		("T9", &t9, Kind::Immature),
 		("T10", &t10, Kind::Plain),
 		("T11", &t11, Kind::Plain),
+		("T12", &t12, Kind::Agg),
 	] {
 		txs.push(UTx { name: n.to_string(), tx: t.clone(), kind: k });
 	}
@@ -1143,7 +1147,10 @@ impl<'u> Live<'u> {
 					v.push(Viol { key: format!("state:{}:entry-invalid", label), what: format!("entry {} fails validate: {}", self.u.tx_name(t), e) });
 				}
 				for b in self.u.txs.iter().filter(|b| matches!(b.kind, Kind::LowFee | Kind::Heavy | Kind::BadSum)) {
-					if t.kernels().iter().any(|k| b.tx.kernels().iter().any(|bk| bk.excess == k.excess)) {
+					// the entry *is* the bad transaction (same kernel set), e.g. what is left of an
+					// aggregate after the pooled part was stripped off; an aggregate that contains its
+					// kernel next to others is judged as a whole by the per-entry rules above
+					if t.kernels().len() == b.tx.kernels().len() && t.kernels().iter().all(|k| b.tx.kernels().iter().any(|bk| bk.excess == k.excess)) {
 						v.push(Viol { key: format!("state:{}:holds-{}", label, b.name), what: format!("{} ({}) is in the {}", b.name, b.kind.name(), label) });
 					}
 				}
